@@ -357,8 +357,18 @@ def known_findings():
     return json.load(open(p))
 
 
+_replay_cleared = set()
+
+
 def write_replay(prop, name, payload):
     d = os.path.join(VERIF, "build", "replay", prop)
+    if prop not in _replay_cleared and os.path.isdir(d):
+        for fn in os.listdir(d):          # replay files of earlier runs are stale
+            try:
+                os.remove(os.path.join(d, fn))
+            except OSError:
+                pass
+    _replay_cleared.add(prop)
     os.makedirs(d, exist_ok=True)
     p = os.path.join(d, name + ".json")
     with open(p, "w") as f:
